@@ -245,7 +245,12 @@ func (x *Exec) contractFrame(fr *Frame) *Frame {
 }
 
 func (x *Exec) siteMatches(c *Contract, d *Directive, call *ast.CallExpr, text string) bool {
-	if d.CallText != text {
+	if strings.HasSuffix(d.CallText, ")") {
+		// "f(args)": the directive names the call with its argument text
+		if normCallText(exprText(x.w.Fset, call)) != d.CallText {
+			return false
+		}
+	} else if d.CallText != text {
 		return false
 	}
 	if d.CallOrd == 0 {
@@ -832,14 +837,12 @@ func (x *Exec) inline(s *State, fr *Frame, fn *types.Func, sig *types.Signature,
 func (x *Exec) inlineLit(s *State, fr *Frame, li *litInfo, args []Value, call *ast.CallExpr) Value {
 	sig := li.info.TypeOf(li.lit).(*types.Signature)
 	nf := &Frame{name: fmt.Sprintf("funclit%d", li.id), info: li.info, pkg: li.pkg, sig: sig, parent: fr, callOrd: map[string]int{}}
+	x.bindParams(s, nf, nil, li.lit.Type, nil, args)
 	if c, ok := x.w.LitC[li.lit]; ok {
+		// (after the parameters: ghost initialisers may mention them)
 		nf.contract = c
 		x.initGhost(s, nf, c)
 	}
-	for _, f := range x.stack {
-		_ = f
-	}
-	x.bindParams(s, nf, nil, li.lit.Type, nil, args)
 	return x.runBody(s, nf, li.lit.Body, call.Pos())
 }
 
